@@ -61,4 +61,274 @@ theorem uniq_append_singleton (v : α) (xs : List α) (h : v ∉ xs) : uniq (xs 
     simp [uniq, ih hxs, List.filter_append, hx]
 
 end
+
+/-! ## string layer -/
+
+theorem splitGo_single_cons (c x : Nat) (cur xs : Str) :
+    splitGo [c] 0 cur (x :: xs) =
+      if x = c then cur.reverse :: splitGo [c] 0 [] xs else splitGo [c] 0 (x :: cur) xs := by
+  by_cases h : x = c
+  · subst h; simp [splitGo, List.isPrefixOf]
+  · have : (c == x) = false := by simp [Ne.symm h]
+    simp [splitGo, List.isPrefixOf, this, h]
+
+theorem splitGo_free (c : Nat) (t rest cur : Str) (h : c ∉ t) :
+    splitGo [c] 0 cur (t ++ rest) = splitGo [c] 0 (t.reverse ++ cur) rest := by
+  induction t generalizing cur with
+  | nil => simp
+  | cons x xs ih =>
+    have hx : x ≠ c := fun e => h (by simp [e])
+    have hxs : c ∉ xs := fun e => h (by simp [e])
+    rw [List.cons_append, splitGo_single_cons, if_neg hx, ih _ hxs]
+    simp
+
+theorem splitGo_nil (d cur : Str) (k : Nat) : splitGo d k cur [] = [cur.reverse] := by
+  cases k <;> simp [splitGo]
+
+/-- `split` inverts `join` for a single-character delimiter and delimiter-free pieces. -/
+theorem split_join (c : Nat) (l : List Str) (hne : l ≠ []) (h : ∀ e ∈ l, c ∉ e) :
+    split [c] (join [c] l) = l := by
+  unfold split
+  induction l with
+  | nil => exact absurd rfl hne
+  | cons x rest ih =>
+    cases rest with
+    | nil =>
+      have := splitGo_free c x [] [] (h x (by simp))
+      simp only [List.append_nil] at this
+      simp [join, this, splitGo_nil]
+    | cons y rest' =>
+      have hx : c ∉ x := h x (by simp)
+      have ih' := ih (by simp) (fun e he => h e (by simp [he]))
+      simp only [join, List.append_assoc]
+      rw [splitGo_free c x _ [] hx]
+      simp only [List.append_nil, List.singleton_append]
+      rw [splitGo_single_cons]
+      simp [ih']
+
+
+theorem varAt_ne (c : Nat) (cs : Str) (h : c ≠ 36) : varAt (c :: cs) = none := by
+  unfold varAt
+  split
+  · rename_i heq; injection heq with h1 _; exact absurd h1 h
+  · rfl
+
+theorem refAt_ne (c : Nat) (cs : Str) (h : c ≠ 36) : refAt (c :: cs) = none := by
+  unfold refAt
+  split
+  · rename_i heq; injection heq with h1 _; exact absurd h1 h
+  · rfl
+
+theorem expandGo_no_dollar (env : Env) (f : Nat) (s : Str) (h : 36 ∉ s) : expandGo env f s = .value s := by
+  induction f generalizing s with
+  | zero => simp [expandGo]
+  | succ f ih =>
+    cases s with
+    | nil => simp [expandGo]
+    | cons c cs =>
+      have hc : c ≠ 36 := fun e => h (by simp [e])
+      have hcs : 36 ∉ cs := fun e => h (by simp [e])
+      simp [expandGo, varAt_ne c cs hc, ih cs hcs]
+
+theorem expand_no_dollar (env : Env) (s : Str) (h : 36 ∉ s) : expand env s = .value s :=
+  expandGo_no_dollar env _ s h
+
+theorem interp_no_dollar (env : Env) (f : Nat) (s : Str) (h : 36 ∉ s) : interp env f s = s := by
+  induction f generalizing s with
+  | zero => simp [interp]
+  | succ f ih =>
+    cases s with
+    | nil => simp [interp]
+    | cons c cs =>
+      have hc : c ≠ 36 := fun e => h (by simp [e])
+      have hcs : 36 ∉ cs := fun e => h (by simp [e])
+      simp [interp, refAt_ne c cs hc, ih cs hcs]
+
+theorem not_mem_join (c x : Nat) (l : List Str) (hx : x ≠ c) (h : ∀ e ∈ l, x ∉ e) : x ∉ join [c] l := by
+  induction l with
+  | nil => simp [join]
+  | cons a rest ih =>
+    cases rest with
+    | nil => simpa [join] using h a (by simp)
+    | cons b rest' =>
+      have := ih (fun e he => h e (by simp [he]))
+      simp only [join, List.mem_append, not_or]
+      exact ⟨⟨h a (by simp), by simp [hx]⟩, this⟩
+
+
+/-- pieces of a well-formed path value: non-empty, free of the delimiter `c` and of `$` -/
+def GoodPiece (c : Nat) (e : Str) : Prop := e ≠ [] ∧ c ∉ e ∧ 36 ∉ e
+
+theorem startsWith_good (c : Nat) (v : Str) (h : GoodPiece c v) : startsWith v [c] = false := by
+  obtain ⟨hne, hc, _⟩ := h
+  cases v with
+  | nil => exact absurd rfl hne
+  | cons x xs =>
+    have : (c == x) = false := by simp; intro e; exact hc (by simp [e])
+    simp [startsWith, List.isPrefixOf, this]
+
+theorem endsWith_good (c : Nat) (v : Str) (h : GoodPiece c v) : endsWith v [c] = false := by
+  have h' : GoodPiece c v.reverse := ⟨by simpa using h.1, by simpa using h.2.1, by simpa using h.2.2⟩
+  simpa [endsWith, startsWith] using startsWith_good c v.reverse h'
+
+theorem split_join_filter (c : Nat) (l : List Str) (h : ∀ e ∈ l, GoodPiece c e) :
+    (split [c] (join [c] l)).filter (fun el => !decide (el = [])) = l := by
+  cases l with
+  | nil => simp [join, split, splitGo]
+  | cons a rest =>
+    rw [split_join c _ (by simp) (fun e he => (h e he).2.1)]
+    apply List.filter_eq_self.mpr
+    intro e he
+    simpa using (h e he).1
+
+theorem applyL_mem (append fwd : Bool) (v : Str) (old : List Str) (e : Str)
+    (he : e ∈ applyL append fwd [v] old) : e = v ∨ e ∈ old := by
+  unfold applyL at he
+  rw [mem_uniq] at he
+  cases fwd <;> cases append <;> simp [appendL, prependL, removeL] at he <;> grind
+
+theorem envPrepend_lifts (c : Nat) (hc : c ≠ 36) (append fwd : Bool) (var v : Str) (oldl : List Str) (env : Env)
+    (hold : ∀ e ∈ oldl, GoodPiece c e) (hv : GoodPiece c v)
+    (henv : (env.get var).getD [] = join [c] oldl) :
+    envPrepend append fwd var v [c] env = .ok (env.set var (join [c] (applyL append fwd [v] oldl))) := by
+  have hsplitv : split [c] v = [v] := by
+    have := split_join c [v] (by simp) (by intro e he; simp at he; subst he; exact hv.2.1)
+    simpa [join] using this
+  have hgood : ∀ e ∈ applyL append fwd [v] oldl, 36 ∉ e := by
+    intro e he
+    rcases applyL_mem append fwd v oldl e he with h | h
+    · subst h; exact hv.2.2
+    · exact (hold e h).2.2
+  have hnd : (36 : Nat) ∉ join [c] (applyL append fwd [v] oldl) :=
+    not_mem_join c 36 _ (Ne.symm hc) hgood
+  unfold envPrepend
+  simp [startsWith_good c v hv, endsWith_good c v hv, henv,
+    expand_no_dollar env v hv.2.2, hsplitv, setEnvI]
+  rw [split_join_filter c oldl hold, interp_no_dollar env _ _ hnd]
+
+
+theorem join_cons_ne (c : Nat) (a : Str) (rest : List Str) (hr : rest ≠ []) :
+    join [c] (a :: rest) = a ++ c :: join [c] rest := by
+  cases rest with
+  | nil => exact absurd rfl hr
+  | cons b r => simp [join]
+
+/-- first character of a join of good pieces is not the delimiter -/
+theorem startsWith_join_good (c : Nat) (l : List Str) (hne : l ≠ []) (h : ∀ e ∈ l, GoodPiece c e) :
+    startsWith (join [c] l) [c] = false := by
+  cases l with
+  | nil => exact absurd rfl hne
+  | cons a rest =>
+    have ha := h a (by simp)
+    obtain ⟨hane, hac, _⟩ := ha
+    cases a with
+    | nil => exact absurd rfl hane
+    | cons x xs =>
+      have hx : (c == x) = false := by simp; intro e; exact hac (by simp [e])
+      cases rest with
+      | nil => simp [join, startsWith, List.isPrefixOf, hx]
+      | cons b r => simp [join, startsWith, List.isPrefixOf, hx]
+
+theorem getLast_join_good (c : Nat) (l : List Str) (hne : l ≠ []) (h : ∀ e ∈ l, GoodPiece c e) :
+    ∃ pre x, join [c] l = pre ++ [x] ∧ x ≠ c := by
+  induction l with
+  | nil => exact absurd rfl hne
+  | cons a rest ih =>
+    cases rest with
+    | nil =>
+      have ha := h a (by simp)
+      refine ⟨a.dropLast, a.getLast ha.1, ?_, ?_⟩
+      · simp [join, List.dropLast_concat_getLast]
+      · intro e; exact ha.2.1 (e ▸ List.getLast_mem ha.1)
+    | cons b r =>
+      obtain ⟨pre, x, hp, hx⟩ := ih (by simp) (fun e he => h e (by simp [he]))
+      refine ⟨a ++ c :: pre, x, ?_, hx⟩
+      rw [join_cons_ne c a (b :: r) (by simp), hp]; simp
+
+theorem endsWith_snoc (s : Str) (x c : Nat) : endsWith (s ++ [x]) [c] = (c == x) := by
+  simp [endsWith, List.isPrefixOf]
+
+theorem endsWith_join_good (c : Nat) (l : List Str) (hne : l ≠ []) (h : ∀ e ∈ l, GoodPiece c e) :
+    endsWith (join [c] l) [c] = false := by
+  obtain ⟨pre, x, hp, hx⟩ := getLast_join_good c l hne h
+  rw [hp, endsWith_snoc]; simp; exact fun e => hx e.symm
+
+
+/-- the value as written in the table: optional leading / trailing delimiter around a good piece -/
+def flagged (c : Nat) (pre app : Bool) (v : Str) : Str :=
+  (if pre then [c] else []) ++ v ++ (if app then [c] else [])
+
+theorem applyL_fwd_ne (append : Bool) (v : Str) (old : List Str) : applyL append true [v] old ≠ [] := by
+  intro h
+  have : v ∈ applyL append true [v] old := by
+    unfold applyL; rw [mem_uniq]; cases append <;> simp [appendL, prependL]
+  rw [h] at this; exact absurd this (by simp)
+
+theorem applyL_good (c : Nat) (append fwd : Bool) (v : Str) (oldl : List Str)
+    (hold : ∀ e ∈ oldl, GoodPiece c e) (hv : GoodPiece c v) :
+    ∀ e ∈ applyL append fwd [v] oldl, GoodPiece c e := by
+  intro e he
+  rcases applyL_mem append fwd v oldl e he with h | h
+  · subst h; exact hv
+  · exact hold e h
+
+set_option maxRecDepth 2000 in
+theorem envPrepend_lifts_flags (c : Nat) (hc : c ≠ 36) (append pre app : Bool) (var v : Str)
+    (oldl : List Str) (env : Env)
+    (hold : ∀ e ∈ oldl, GoodPiece c e) (hv : GoodPiece c v)
+    (henv : (env.get var).getD [] = join [c] oldl) :
+    envPrepend append true var (flagged c pre app v) [c] env
+      = .ok (env.set var (flagged c pre app (join [c] (applyL append true [v] oldl)))) := by
+  have hgoodL := applyL_good c append true v oldl hold hv
+  have hneL := applyL_fwd_ne append v oldl
+  have hsw := startsWith_join_good c _ hneL hgoodL
+  have hew := endsWith_join_good c _ hneL hgoodL
+  have hsplitv : split [c] v = [v] := by
+    have := split_join c [v] (by simp) (by intro e he; simp at he; subst he; exact hv.2.1)
+    simpa [join] using this
+  have hnd : (36 : Nat) ∉ join [c] (applyL append true [v] oldl) :=
+    not_mem_join c 36 _ (Ne.symm hc) (fun e he => (hgoodL e he).2.2)
+  have hnd' : (36 : Nat) ∉ flagged c pre app (join [c] (applyL append true [v] oldl)) := by
+    unfold flagged; cases pre <;> cases app <;> simp [hnd, Ne.symm hc]
+  have hvne : v ≠ [] := hv.1
+  -- the three pieces of bookkeeping on the written value
+  have h1 : startsWith (flagged c pre app v) [c] = pre := by
+    cases pre
+    · cases app
+      · simpa [flagged] using startsWith_good c v hv
+      · obtain ⟨x, xs, rfl⟩ : ∃ x xs, v = x :: xs := by
+          cases v with | nil => exact absurd rfl hvne | cons x xs => exact ⟨x, xs, rfl⟩
+        have hx : (c == x) = false := by simp; intro e; exact hv.2.1 (by simp [e])
+        simp [flagged, startsWith, List.isPrefixOf, hx]
+    · simp [flagged, startsWith, List.isPrefixOf]
+  have h2 : (if pre then (flagged c pre app v).drop 1 else flagged c pre app v) = flagged c false app v := by
+    cases pre <;> simp [flagged]
+  have h3 : endsWith (flagged c false app v) [c] = app := by
+    cases app
+    · simpa [flagged] using endsWith_good c v hv
+    · simp [flagged, endsWith, List.isPrefixOf]
+  have h4 : (if app then (flagged c false app v).take ((flagged c false app v).length - 1) else flagged c false app v) = v := by
+    cases app <;> simp [flagged]
+  unfold envPrepend
+  simp only [h1, List.length_singleton, h2, h3, h4, henv]
+  simp only [expand_no_dollar env v hv.2.2, hsplitv, setEnvI]
+  have hflt : List.filter (fun el => decide (el ≠ [])) (split [c] (join [c] oldl)) = oldl := by
+    have := split_join_filter c oldl hold
+    simpa using this
+  rw [hflt]
+  obtain ⟨p, x, hp, hx⟩ := getLast_join_good c _ hneL hgoodL
+  have hew2 : endsWith (c :: join [c] (applyL append true [v] oldl)) [c] = false := by
+    rw [hp, ← List.cons_append, endsWith_snoc]; simp; exact fun e => hx e.symm
+  have hc' : (36 : Nat) ≠ c := Ne.symm hc
+  let J := join [c] (applyL append true [v] oldl)
+  have a1 : (36 : Nat) ∉ c :: J := by simp [hc', J, hnd]
+  have a2 : (36 : Nat) ∉ J ++ [c] := by simp [hc', J, hnd]
+  have a3 : (36 : Nat) ∉ c :: (J ++ [c]) := by simp [hc', J, hnd]
+  cases pre <;> cases app
+  · simp [flagged, hsw, hew, interp_no_dollar env _ _ hnd]
+  · simp [flagged, hsw, hew]; rw [interp_no_dollar env _ _ a2]
+  · simp [flagged, hsw, hew, hew2]; rw [interp_no_dollar env _ _ a1]
+  · simp [flagged, hsw, hew, hew2]; rw [interp_no_dollar env _ _ a3]
+
+
 end EupsModel.PathAlg
